@@ -1,11 +1,10 @@
 (* C15: pretend mode changes nothing. *)
 From LC Require Import Lib.Bytes Lib.Lex Lib.Fields Lib.PathM Gen.Consts
-  Model.MountInfo Model.FsTree Model.Kernel Model.Layers Cases.Verdict Cases.LC.
+  Model.MountInfo Model.FsTree Model.Kernel Model.Layers Model.Args Cases.Verdict Cases.LC.
 Open Scope N_scope.
 Import LC LCS.
 
 Module C15.
-Definition case := LC.case.
 
 Definition step_spec (c : cfgT) (w : wobs) (v : sview) : bool :=
   if e_pretend (v_env v) then
@@ -13,8 +12,49 @@ Definition step_spec (c : cfgT) (w : wobs) (v : sview) : bool :=
     && (ks_nextid (wo_ks (v_after v)) =? ks_nextid (wo_ks w)) && (ks_nextdev (wo_ks (v_after v)) =? ks_nextdev (wo_ks w))
   else true.
 
-Definition spec (c : case) : bool := along_views (step_spec (c_cfg c)) (w0 c) (c_steps c).
-Definition wf := LC.wf.
+(* ---- process level: the real binary, the switch anywhere on the command line ---- *)
+Record pcase := MkP {
+  p_pre : list tok; p_cmd : bytes; p_post : list tok;     (* structured command line *)
+  p_argv : list bytes;                                    (* what was passed to the binary *)
+  p_ops : nat;                  (* mutating operations the binary performed (fault-point log) *)
+  p_changed : bool;             (* file tree below the base path or mount table changed *)
+  p_would : bool; p_action : bool }.                      (* -debug output: "would ..." / "action: ..." lines *)
+
+Definition p_wf (p : pcase) : bool :=
+  list_beq beq (render_toks (p_pre p) ++ [p_cmd p] ++ render_toks (p_post p)) (p_argv p)
+  && forallb (fun t => match t with
+                       | TBool n => plain_name n
+                       | TStr n v => plain_name n
+                       | TWord w => false end) (p_pre p)
+  && forallb (fun t => match t with
+                       | TBool n => plain_name n
+                       | TStr n v => plain_name n
+                       | TWord w => is_word w end) (p_post p)
+  && is_word (p_cmd p).
+Definition has_p (p : pcase) : bool :=
+  existsb (fun t => match t with TBool n => beq n (bs "p") | _ => false end) (p_pre p ++ p_post p).
+(* correspondence: the pretender the model says is installed is the one the -debug output shows *)
+Definition p_corr (p : pcase) : bool :=
+  match parse_main (p_argv p) with
+  | MUsage => (p_ops p =? 0)%nat && negb (p_changed p)
+  | MRun o _ _ _ =>
+    if o_debug o && (p_would p || p_action p)
+    then Bool.eqb (p_would p) (o_p o) && Bool.eqb (p_action p) (negb (o_p o))
+    else true
+  end.
+(* the property: with -p anywhere, nothing is done *)
+Definition p_spec (p : pcase) : bool :=
+  negb (has_p p) || ((p_ops p =? 0)%nat && negb (p_changed p) && negb (p_action p)).
+
+Inductive case := CIn (c : LC.case) | CProc (p : pcase).
+
+Definition spec (c : case) : bool :=
+  match c with
+  | CIn c => along_views (step_spec (c_cfg c)) (w0 c) (c_steps c)
+  | CProc p => p_spec p
+  end.
+Definition wf (c : case) : bool := match c with CIn c => LC.wf c | CProc p => p_wf p end.
 Definition kf (c : case) : N := 0.
-Definition verdict (c : case) : N := mkverdict (wf c) (LC.corr c) (spec c) (kf c).
+Definition corr (c : case) : bool := match c with CIn c => LC.corr c | CProc p => p_corr p end.
+Definition verdict (c : case) : N := mkverdict (wf c) (corr c) (spec c) (kf c).
 End C15.
